@@ -35,6 +35,9 @@ def build(H, tier, seed):
     U.vc_hodge(H, 'unhodge')
     U.vc_polarity(H)
     M.vc_dual(H)
+    # the same selection rule on the recorder that compiles registered functions (seeded change C05l: undual() recorded the dual)
+    from contracts import taperecorder_c as TRC
+    M.vc_dual(H, cls='TapeRecorder', rel=TRC.TR)
     M.vc_mv_delegations(H, methods_binary=['rp', '__and__', '__rand__'],
                         methods_unary=['hodge', 'unhodge', 'polarity', 'unpolarity'])
     T.duality_lemmas(H, tier)
@@ -57,6 +60,13 @@ def standins(tier, seed):
                  'job': {'kind': 'dualkind', 'module': 'standins.jobs5',
                          'configs': [dict(p=2), dict(p=3), dict(p=1, q=1), dict(p=2, q=0, r=1), dict(p=3, q=0, r=1), dict(p=1, q=1, r=1),
                                      dict(p=1, q=0, r=2), dict(p=0, q=0, r=2), dict(p=2, q=0, r=3), dict(p=1, q=1, r=2), dict(name='2DPGA')]}})
+    # the duality maps written inside registered (compiled) functions: recorded through TapeRecorder.dual / undual / hodge / ..
+    forms = ['a.dual()', 'a.undual()', 'a.dual().undual()', 'a.undual().dual()', '(a.dual() ^ b.dual()).undual()', 'a.hodge()', 'a.unhodge()',
+             "a.dual(kind='hodge')", "a.undual(kind='hodge')", '(a & b)', '(a.hodge() ^ b.hodge()).unhodge()']
+    cfgs = [dict(p=2), dict(p=3, q=0, r=1), dict(p=3), dict(p=1, q=1, r=1)] + ([] if tier == 'quick' else [dict(p=4), dict(p=3, q=1), dict(p=2, q=0, r=1), dict(name='3DPGA'), dict(p=4, q=1)])
+    jobs += [{'name': f'registered-duals#{i}', 'bound': f'{len(forms)} dual / undual / regressive forms inside alg.register(f), seeded operands, numeric recorder path compared with direct evaluation',
+              'job': {'kind': 'register', 'module': 'standins.jobs3', 'configs': [dict(c, always=forms * 2, random=0, modes=['numeric'])], 'seed': seed * 10 + i}}
+             for i, c in enumerate(cfgs)]
     return jobs
 
 
